@@ -84,6 +84,30 @@ def scalar(ty):
     return ty.kind == 'ptr' or (ty.kind == 'name' and ty.name in BUILTIN_C)
 
 
+class StringModel(Model):
+    def __init__(self):
+        Model.__init__(self, 'str', 'struct cm_string')
+
+    def default_ctor(self, fe):
+        return 'cm_str_new()'
+
+    def construct(self, fe, cty, args, node):
+        if not args:
+            return 'cm_str_new()'
+        if len(args) >= 1:
+            return fe.expr(args[0])     # copy / move / from a literal (literals are already cm_string values)
+        brk('string constructor %r' % cty)
+
+    def member(self, fe, b, name, args, node):
+        if name == 'empty' and not args:
+            return 'cm_str_empty(%s)' % addr(b)
+        if name in ('size', 'length') and not args:
+            return '%s.n' % paren_lv(b)
+        if name == 'clear' and not args:
+            return '(%s.n = 0)' % paren_lv(b)
+        return Model.member(self, fe, b, name, args, node)
+
+
 class ContainerModel(Model):
     is_container = True
     KIND = None
@@ -331,6 +355,8 @@ class Registry:
     def key_ops(self, em, key):
         if scalar(key):
             return 'CM_LT_SCALAR', 'CM_EQ_SCALAR'
+        if key.kind == 'name' and key.name == 'std::string':
+            return 'CM_LT_STR', 'CM_EQ_STR'
         a = em.abbr(key)
         if a in self.key_ops_table:
             return self.key_ops_table[a]
@@ -349,6 +375,8 @@ class Registry:
 
     def make(self, em, ty):
         n = ty.name
+        if n == 'std::string':
+            return StringModel()
         if n == 'std::pair' and len(ty.args) == 2:
             return PairModel(self, em, ty)
         if n == 'std::vector':
@@ -369,7 +397,7 @@ class Registry:
         if n == '__gnu_cxx::__normal_iterator':
             p = ty.args[0]
             return IterModel(em.ctype(self._unconst(p.inner)))
-        if n in ('std::__detail::_Node_iterator', 'std::__detail::_Node_const_iterator'):
+        if n in ('std::__detail::_Node_iterator', 'std::__detail::_Node_const_iterator', 'std::__detail::_Node_iterator_base'):
             return IterModel(em.ctype(self._unconst(ty.args[0])))
         if n == 'std::reverse_iterator':
             brk('reverse iterators are not modelled')
@@ -419,6 +447,21 @@ class Registry:
                 m = self.lookup(fe.em, fe.ty(args[1]).strip_ref())
         if m is None:
             brk('%s: operator%s on unmodelled type %r' % (fe.f.get('name'), op, t0))
+        if isinstance(m, StringModel):
+            a = [fe.expr(x) for x in args]
+            if op == '+' and len(a) == 2:
+                return 'cm_str_cat(%s, %s)' % (a[0], a[1])
+            if op == '+=' and len(a) == 2:
+                return deref('cm_str_append(%s, %s)' % (addr(a[0]), a[1]))
+            if op == '==' and len(a) == 2:
+                return 'cm_str_eq(%s, %s)' % (a[0], a[1])
+            if op == '!=' and len(a) == 2:
+                return '(!cm_str_eq(%s, %s))' % (a[0], a[1])
+            if op == '<' and len(a) == 2:
+                return 'cm_str_lt(%s, %s)' % (a[0], a[1])
+            if op == '=' and len(a) == 2:
+                return fe.assign(node, a[0], a[1])
+            brk('string operator%s' % op)
         if m.is_iter:
             a = [fe.expr(x) for x in args]
             if op in ('==', '!=', '<', '<=', '>', '>=', '-') and len(a) == 2:
@@ -461,10 +504,54 @@ class Registry:
         brk('%s: indirect call' % fe.f.get('name'))
 
     def string_literal(self, fe, value):
-        brk('%s: string literal %s' % (fe.f.get('name'), value[:20]))
+        import hashlib
+        tok = int(hashlib.sha1(value.encode()).hexdigest()[:6], 16) | 0x1000000
+        fe.em.string_tokens[value] = tok
+        return 'cm_str_lit(0x%xu /* %s */)' % (tok, value.replace('*/', '* /'))
 
     def lambda_expr(self, fe, n):
-        brk('%s: lambda' % fe.f.get('name'))
+        brk('%s: lambda outside a modelled algorithm call' % fe.f.get('name'))
+
+    def lift_lambda(self, fe, n):
+        """non-capturing lambda -> static C function; returns its name"""
+        x = n
+        while x.get('kind') in ('MaterializeTemporaryExpr', 'ImplicitCastExpr', 'ExprWithCleanups', 'CXXBindTemporaryExpr', 'CXXConstructExpr', 'CXXFunctionalCastExpr'):
+            x = x['inner'][0]
+        if x.get('kind') != 'LambdaExpr':
+            brk('%s: expected a lambda, got %s' % (fe.f.get('name'), x.get('kind')))
+        rec = [c for c in x.get('inner', []) if c.get('kind') == 'CXXRecordDecl'][0]
+        if any(c.get('kind') == 'FieldDecl' for c in rec.get('inner', [])):
+            return self.lift_capturing_lambda(fe, x, rec)
+        ops = []
+        for c in rec.get('inner', []):
+            if c.get('kind') == 'CXXMethodDecl' and c.get('name') == 'operator()':
+                ops.append(c)
+            if c.get('kind') == 'FunctionTemplateDecl' and c.get('name') == 'operator()':
+                ops += [d for d in c.get('inner', []) if d.get('kind') == 'CXXMethodDecl' and any(b.get('kind') == 'CompoundStmt' for b in d.get('inner', [])) and 'auto' not in d['type']['qualType']]
+        if len(ops) != 1:
+            brk('%s: lambda with %d call operators' % (fe.f.get('name'), len(ops)))
+        op = ops[0]
+        em = fe.em
+        em.lambda_counter += 1
+        name = 'xt_lambda%d' % em.lambda_counter
+        from xtract import FuncEmitter
+        f2 = dict(op)
+        f2['kind'] = 'FunctionDecl'
+        f2['_scope'] = fe.scope
+        f2['mangledName'] = name
+        fe.tu._index_body(op)
+        for c in op.get('inner', []):
+            if c.get('kind') == 'ParmVarDecl':
+                fe.tu.by_id[c['id']] = c
+        em.cname_of_mangled[name] = name
+        em.mangled_of_cname[name] = name
+        sub = FuncEmitter(em, fe.tu, f2)
+        out = sub.emit()
+        em.static_funcs.append('static ' + out['proto'] + '\n' + out['body'])
+        return name, sub
+
+    def lift_capturing_lambda(self, fe, x, rec):
+        brk('%s: capturing lambda' % fe.f.get('name'))
 
     def new_expr(self, fe, n):
         brk('%s: new' % fe.f.get('name'))
@@ -491,4 +578,24 @@ def default_registry():
         return fe.expr(args[0])
     r.free['move'] = h_move
     r.free['forward'] = h_move
+    r.free['sqrt'] = simple('cm_sqrt')
+    r.free['ceil'] = simple('cm_ceil')
+
+    def h_to_string(fe, args, node):
+        return 'cm_str_num((unsigned long)%s)' % fe.expr(args[0])
+    r.free['to_string'] = h_to_string
+
+    def h_sort(fe, args, node):
+        if len(args) != 3:
+            brk('std::sort without comparator')
+        lname, sub = r.lift_lambda(fe, args[2])
+        et = fe.ty(args[0])
+        m = r.lookup(fe.em, et.strip_ref())
+        if m is None or not m.is_iter:
+            brk('std::sort on non-iterator %r' % et)
+        fe.em.sort_counter = getattr(fe.em, 'sort_counter', 0) + 1
+        sname = 'xt_sort%d' % fe.em.sort_counter
+        fe.em.static_funcs.append('CM_SORT(%s, %s, %s)' % (sname, m.elem, lname))
+        return '%s(%s, %s)' % (sname, fe.expr(args[0]), fe.expr(args[1]))
+    r.free['sort'] = h_sort
     return r
